@@ -208,7 +208,9 @@ def history(schemas, docs):
             if exact(d) != doc_snap[di]:
                 out.add("document-unchanged", f"document-unchanged|{kind}", f"step {i} {op!r}: document {di} changed to {show(d,250)}")
                 break
-        if W._last_cast is not None and any(aliases(W._last_cast, d) for d in W.docs):
+        # (only when a cast replaced something: where nothing had to be written, handing back the document's own
+        #  containers is not observable through any statement)
+        if W._last_cast is not None and any(aliases(W._last_cast, d) and exact(W._last_cast) != exact(d) for d in W.docs):
             out.add("document-unchanged", f"cast-copy-aliases-document|{kind}", f"step {i} {op!r}: returned cast data shares a container with the caller's document")
         # (ii) fingerprints
         fp = fingerprint(*shared)
